@@ -27,6 +27,8 @@
              | n times: the string KEPT since its call and read after ALL calls were made,
                whether it still equals the copy taken when it was returned, and the result of
                parsing the kept string (ok, id).  State carried across calls.
+   13 COLL  : which(0 WayNodes, 1 Members, 2 Nodes, 3 Ways, 4 Relations, 5 OSM) n (k r v)*
+             | ElementIDs() | FeatureIDs() | plain ids (NodeIDs()/IDs(); empty for Members and OSM)
    4 CONV  : k r v (element kind, in range) | for K in node, way, relation:
              (ok, value) of FeatureID.KID() on the feature id, then the same three for
              ElementID.KID() on the element id  (ok = did not panic)
@@ -344,6 +346,18 @@ Definition check_strseq : P (list Z) :=
   let '(j1, j2) := check_kept which inp obs in
   ret (code_if j1 1 ++ code_if j2 2)%list.
 
+(* ---- COLL: collection-level id functions ---- *)
+Definition check_coll : P (list Z) :=
+  which <- pint ;; inp <- plist ptriple ;; eo <- plist pint ;; fo <- plist pint ;; po <- plist pint ;;
+  let plain := if (which =? 1) || (which =? 5) then [] else coll_plain_ids which inp in
+  let j1 := list_eqb Z.eqb (coll_element_ids which inp) eo && list_eqb Z.eqb (coll_feature_ids which inp) fo
+            && list_eqb Z.eqb plain po in
+  (* every id decodes to exactly the kind, reference and version of its item *)
+  let ord := coll_order which inp in
+  let j2 := list_eqb Z.eqb (map (fun '(k, r, v) => pack k r v) ord) eo && list_eqb Z.eqb (map (fun '(k, r, v) => pack k r 0) ord) fo
+            && list_eqb Z.eqb plain po in
+  ret (code_if j1 1 ++ code_if j2 2)%list.
+
 Definition check_case (t : toks) : list Z :=
   match t with
   | tag :: rest =>
@@ -359,6 +373,7 @@ Definition check_case (t : toks) : list Z :=
                else if tag =? 20 then check_oor
                else if tag =? 22 then check_bigsort
                else if tag =? 24 then check_strseq
+               else if tag =? 26 then check_coll
                else pfail in
       match parse_all p rest with Some codes => codes | None => [0] end
   | [] => [0]
